@@ -5,7 +5,7 @@ UPDATE_ALL = [func("bt.core.StrategyBase.update", variant=v) for v in ("flat", "
 
 ID = "C02"
 META = {
-    "assumptions": ['A-REAL', 'A-COMM', 'A-T', 'A-IND', 'A-DATA-NONE', 'A-CYTHON', 'A-SOLVER', 'A-ENGINE'],
+    "assumptions": ['A-REAL', 'A-COMM', 'A-T', 'A-IND', 'A-CYTHON', 'A-SOLVER', 'A-ENGINE'],
     "explanation": "Per-operation ledger clauses: a trade at the current price changes parent cash + position value by exactly -(fee + spread cost) (lemma from the functional specs of transact/outlay/adjust, which are proved against the bodies); update sweeps parked coupons into cash exactly once on a new date (capital' == capital + sum of swept child capital) and recomputes value from cash plus children.",
 }
 MANIFEST_ENTRY = {
